@@ -26,10 +26,13 @@ RULE = ("clusters = all subsets of size 1..4 (quick: a fixed selection) of 6 "
 ASSUMPTIONS = ["the external DDA solver (adda) is absent in this image, so "
                "DDA-routed shapes can only be observed reporting the missing "
                "dependency", "alphabet values only"]
-# floors on the unchanged tree (thorough) in brackets; the iterative solver's
-# result depends on the listing order at the level of its own accuracy
-TOLERANCES = {"permutation-default": 0.1,     # [6.5e-3] of the peak field
-              "permutation-tight": 3e-3,      # [1.1e-4]
+# floors on the unchanged tree (thorough) in brackets.  The permutation
+# floors used to be 6.5e-3 / 1.1e-4 and were first taken for the accuracy of
+# the iterative solver; they were a genuine defect (stale entries of a static
+# work array read for pairs of spheres with different expansion orders, see
+# known_findings.json), repaired in /repo.
+TOLERANCES = {"permutation-default": 1e-6,    # [4.3e-9] of the peak field
+              "permutation-tight": 1e-6,      # [1.9e-8]
               "rotation-default": 1e-5,       # [3.6e-8]
               "rotation-tight": 1e-5,         # [7.1e-8]
               "one-sphere-vs-mie": 6e-3,      # [2.0e-4]
@@ -88,10 +91,28 @@ def cases(tier, seed):
                     "sub": [0, 1, 2], "opt": opt, "aligned": True})
     out.append({"id": "rot:aligned", "kind": "rot", "sub": [0, 1, 2],
                 "aligned": True})
+    # spheres of clearly different size (different expansion orders per
+    # sphere): the pair translations work on blocks of unequal length
+    for sub in ([(0, 1, 2), (0, 1, 2, 3)] if tier == "quick" else
+                [(0, 1), (0, 2), (0, 1, 2), (1, 2, 3), (0, 2, 3),
+                 (0, 1, 2, 3)]):
+        for opt in ("default", "tight"):
+            if tier == "quick" and opt == "default" and len(sub) == 4:
+                continue
+            out.append({"id": "perm:sizes%s:%s" % ("".join(map(str, sub)),
+                                                   opt),
+                        "kind": "perm", "sub": list(sub), "opt": opt,
+                        "sizes": True})
+    out.append({"id": "rot:sizes", "kind": "rot", "sub": [0, 1, 2],
+                "sizes": True})
     return out
 
 
 POS_ALIGNED = [(0.3, 0.1, 5.0), (0.3, 1.0, 5.6), (1.2, 0.1, 4.5)]
+SPECS_SIZES = [(1.59, 0.2), (1.59, 0.6), (1.45, 1.0), (1.5, 0.35)]
+POS_SIZES = [(0.5, 0.5, 5.0), (1.6, 0.7, 5.5), (0.4, 2.1, 6.2),
+             (2.0, 2.0, 4.6)]
+_USE_SIZES = [False]
 
 
 # two small spheres far apart, observed on a distant plane: multiple
@@ -135,10 +156,12 @@ def _spheres(sub, order=None, R=None, pivot=None):
     mem = []
     for j in order:
         i = sub[j]
-        c = np.array(POS_ALIGNED[i] if _USE_ALIGNED[0] else POS[i])
+        c = np.array(POS_ALIGNED[i] if _USE_ALIGNED[0] else
+                     (POS_SIZES[i] if _USE_SIZES[0] else POS[i]))
         if R is not None:
             c = pivot + R @ (c - pivot)
-        mem.append(Sphere(n=SPECS[i][0], r=SPECS[i][1], center=tuple(c)))
+        sp = SPECS_SIZES[i] if _USE_SIZES[0] else SPECS[i]
+        mem.append(Sphere(n=sp[0], r=sp[1], center=tuple(c)))
     with warnings.catch_warnings():
         warnings.simplefilter("ignore")
         return Spheres(mem)
@@ -477,6 +500,7 @@ def _run_xsecrot(case, ck):
 def run_case(case):
     ck = Checker()
     _USE_ALIGNED[0] = bool(case.get("aligned"))
+    _USE_SIZES[0] = bool(case.get("sizes"))
     fp = {"perm": _run_perm, "bigperm": _run_bigperm, "rot": _run_rot,
           "rule": _run_rule, "weak": _run_weak,
           "xsecrot": _run_xsecrot}[case["kind"]](case, ck)
